@@ -310,4 +310,75 @@ theorem roundIn_int_sameunit (fn : RFn) (t : IntTy) (x : Int) (hx : x.natAbs < 2
     roundIn fn (.int t) [] (.i x) = .ok (.fin (x : Rat)) := by
   have := roundIn_int_mul_exact fn t [] 1 rfl rfl x hx (by simpa using hx)
   simpa using this
+/-- "The conversion of `x : t` to the rep `C` and the unit with integer ratio `m` is clean": the
+common type of `t` and `C` is `C`, the ratio is an integer that fits `C`, the stored value keeps its
+value in `C` (no wrap on the rep cast) and the scaled value is in range of `C` (no overflow, no
+narrowing). -/
+def CleanConv (t C : IntTy) (m : Mag) (x : Int) : Prop :=
+  C ∈ IntTy.all ∧ IntTy.common t C = C ∧ m.isInteger = true ∧ (m.num : Int) ≤ C.hi ∧ C.inRange x ∧
+    C.inRange (x * (m.num : Int))
+
+/-- `apply_magnitude(x, K)` in an integral type, for an integer `K` that fits and a product in range. -/
+theorem applyMagI_int (t : IntTy) (ht : t ∈ IntTy.all) (K : Mag) (hK : K.isInteger = true)
+    (hfit : (K.num : Int) ≤ t.hi) (x : Int) (hxn : t.inRange (x * (K.num : Int))) :
+    applyMagI t K x = .ok (x * (K.num : Int)) := by
+  unfold applyMagI
+  have hcat : categorizeMag K = .intMul := by simp [categorizeMag, hK]
+  rw [hcat]
+  simp only []
+  rw [den_of_isInteger K hK]
+  have hc : compiles t K.num 1 = true := by
+    unfold compiles; rw [categorize_one]; simp only []; exact (gvInt_isSome _ _).2 hfit
+  rw [if_pos hc]
+  have hp := promote_mem t ht
+  have hrp : t.promote.inRange (x * (K.num : Int)) := by
+    have h1 := promote_hi t ht
+    have h2 := promote_lo t ht
+    exact ⟨by have := hxn.1; omega, by have := hxn.2; omega⟩
+  have : applyMag t K.num 1 x = ⟨.ok (x * (K.num : Int)), false, false⟩ := by
+    unfold applyMag
+    rw [categorize_one]
+    simp only []
+    rw [mulIn_ok _ hp _ _ hrp]
+    exact finish_ok t ht _ false hxn
+  rw [this]
+
+/-- `q.as<C>(unit)` / `ResultT{q}` on a clean integral conversion returns the exact scaled value. -/
+theorem construct_clean (t C : IntTy) (m : Mag) (x : Int) (h : CleanConv t C m x) :
+    construct (.int t) (.int C) m (.i x) = .ok (.i (x * (m.num : Int))) := by
+  obtain ⟨hC, hcm, hm, hfit, hx, hxn⟩ := h
+  unfold construct
+  simp only [ArithTy.common, hcm, staticCast, Res.bind_ok, wrap_of_inRange C hC x hx, applyMagnitude,
+    applyMagI_int C hC m hm hfit x hxn, wrap_of_inRange C hC _ hxn]
+
+theorem hi_ge_one (t : IntTy) (ht : t ∈ IntTy.all) : (1 : Int) ≤ t.hi := by
+  have := hi_pos t ht; omega
+
+/-- `detail::cast_to_common_type<C>(q)` on a clean integral conversion. -/
+theorem toCommon_clean (t C : IntTy) (m : Mag) (x : Int) (h : CleanConv t C m x) :
+    toCommon (.int t) (.int C) m (.i x) = .ok (.i (x * (m.num : Int))) := by
+  obtain ⟨hC, hcm, hm, hfit, hx, hxn⟩ := h
+  unfold toCommon
+  have h1 : CleanConv t C [] x :=
+    ⟨hC, hcm, rfl, by simpa [Mag.num] using hi_ge_one C hC, hx, by simpa [Mag.num] using hx⟩
+  rw [construct_clean t C [] x h1]
+  simp only [Res.bind_ok, Mag.num, Int.natCast_one, Int.mul_one]
+  exact construct_clean C C m x ⟨hC, common_self C, hm, hfit, hx, hxn⟩
+
+/-- `std::common_type` absorbs: the common type of an operand's rep with the common rep is the common rep. -/
+theorem common_absorb_left (t1 t2 : IntTy) (h1 : t1 ∈ IntTy.all) (h2 : t2 ∈ IntTy.all) :
+    IntTy.common t1 (IntTy.common t1 t2) = IntTy.common t1 t2 := by
+  rcases all_cases t1 h1 with h | h | h | h | h | h | h | h <;> subst h <;>
+    rcases all_cases t2 h2 with h | h | h | h | h | h | h | h <;> subst h <;> decide
+
+theorem common_absorb_right (t1 t2 : IntTy) (h1 : t1 ∈ IntTy.all) (h2 : t2 ∈ IntTy.all) :
+    IntTy.common t2 (IntTy.common t1 t2) = IntTy.common t1 t2 := by
+  rcases all_cases t1 h1 with h | h | h | h | h | h | h | h <;> subst h <;>
+    rcases all_cases t2 h2 with h | h | h | h | h | h | h | h <;> subst h <;> decide
+
+theorem common_mem (t1 t2 : IntTy) (h1 : t1 ∈ IntTy.all) (h2 : t2 ∈ IntTy.all) :
+    IntTy.common t1 t2 ∈ IntTy.all := by
+  rcases all_cases t1 h1 with h | h | h | h | h | h | h | h <;> subst h <;>
+    rcases all_cases t2 h2 with h | h | h | h | h | h | h | h <;> subst h <;> decide
+
 end Au.C15
